@@ -564,7 +564,10 @@ func main() {
 					if ok, r, v := test(min); ok {
 						minRes, minV = r, v
 					} else {
-						trouble("minimised tape of %s/%s does not reproduce in a fresh process (non-determinism in the harness)", prop, k)
+						jb, _ := json.Marshal(map[string]any{"property": prop, "kind": k, "tape": min})
+						np := filepath.Join(verifDir, "replays", fmt.Sprintf("NONDET-%s-%s.json", prop, sanitize(k)))
+						os.WriteFile(np, jb, 0o644)
+						trouble("minimised tape of %s/%s does not reproduce in a fresh process (non-determinism in the harness); tape saved to %s", prop, k, np)
 					}
 				}
 			}
